@@ -301,7 +301,79 @@ fn run_maxmin(rep: &mut Report, n: usize, xs: &[f64]) {
     rep.count("max_min_mirror_streams");
 }
 
+/// Prices of order 1e280 (times 2^k, |k| <= 40, stays below f64::MAX): the linear, price-valued indicators
+/// must still scale exactly - an intermediate product such as period*price must not overflow. Includes
+/// periods up to usize::MAX for the allocation-free ones.
+fn run_huge_unit(ctx: &Ctx) -> Report {
+    let mut jobs: Vec<Params> = Vec::new();
+    for kind in [Kind::Ema, Kind::Atr, Kind::Macd, Kind::Kc, Kind::Ce, Kind::Tr, Kind::Min, Kind::Max, Kind::Sma, Kind::Wma, Kind::Mad] {
+        for n in [1usize, 3, 14, 200] {
+            let mut p = Params::new1(kind, n);
+            match kind {
+                Kind::Macd => p.p = [n, n + 5, 3],
+                Kind::Kc | Kind::Ce => p.k = 2.0,
+                _ => {}
+            }
+            jobs.push(p);
+        }
+    }
+    for p in crate::common::huge_period_params() {
+        if matches!(p.kind, Kind::Ema | Kind::Atr | Kind::Macd | Kind::Kc) {
+            jobs.push(p);
+        }
+    }
+    let seed = ctx.seed;
+    par_run(jobs, ctx.threads, move |p, rep| {
+        if Inst::try_new(p).is_err() {
+            return;
+        }
+        let mut rng = Rng::derive(seed, 0xC14E, p.p[0] as u64 ^ (p.kind as u64) << 40);
+        for rep_i in 0..4 {
+            let k = rng.range(0, 80) as i32 - 40;
+            let pow2 = (2.0f64).powi(k);
+            let unit = if rep_i % 2 == 0 { 1e280 } else { 1e-280 };
+            let bars = !p.kind.has_scalar() || rep_i >= 2;
+            let xs: Vec<In> = if bars {
+                BarGen::new(BAR_STYLES[rep_i % BAR_STYLES.len()], 1.0, rng.u64()).take(300).iter().map(|b| In::B(b.scale_prices(unit))).collect()
+            } else {
+                BandGen::new(BAND_REGIMES[rep_i], 1.0, rng.u64()).take(300).iter().map(|x| In::S(x * unit)).collect()
+            };
+            let mut a = Inst::new(p);
+            let mut b = Inst::new(p);
+            let mut m: f64 = 0.0;
+            for (i, x) in xs.iter().enumerate() {
+                let y = scale_in(x, pow2);
+                m = m.max(match x {
+                    In::S(v) => v.abs(),
+                    In::B(bb) => bb.h.abs(),
+                });
+                let (oa, ob) = match (a.feed(x), b.feed(&y)) {
+                    (Ok(u), Ok(v)) => (u, v),
+                    _ => return,
+                };
+                for c in 0..oa.n {
+                    rep.evaluations += 1;
+                    let want = oa.v[c] * pow2;
+                    let ok = if oa.v[c].is_finite() && want.is_finite() { (ob.v[c] - want).abs() <= 1e-12 * pow2 * m } else { true };
+                    if !ok {
+                        report(rep, p, "scale_pow2_huge_unit", p.kind.out_names()[c], i + 1, format!("{} {}: out(c*x)={:e} vs c*out(x)={:e} (c=2^{}, prices ~{:e})", p.label(), p.kind.out_names()[c], ob.v[c], want, k, unit), &xs[..=i], &xs[..=i].iter().map(|x| scale_in(x, pow2)).collect::<Vec<_>>(), c, pow2, 0.0, 1e-12 * pow2 * m);
+                        return;
+                    }
+                }
+            }
+            rep.count("huge_unit.twin_streams");
+            rep.distinct_by_construction += 1;
+        }
+    })
+}
+
 pub fn run(ctx: &Ctx) -> Report {
+    let mut rep = run_main(ctx);
+    rep.merge(run_huge_unit(ctx));
+    rep
+}
+
+fn run_main(ctx: &Ctx) -> Report {
     let njobs = ctx.pick(3200, 64000);
     let seed = ctx.seed;
     let maxlen = ctx.pick(3000usize, 8000usize);
